@@ -193,11 +193,11 @@ Theorem gen_step_eq p w s : (rs s <> RNotInit -> rep s <> None) ->
 Proof.
   intros Hwf. unfold gen_Simulator_step, do_step, step_checks.
   rewrite gen_is_starting_or_running_eq, gen_is_initialized_eq.
-  destruct (running s); [reflexivity|]. cbn [negb andb].
-  destruct (rs s) eqn:Ers; try reflexivity;
+  (* the refusals, in whatever order the source has them *)
+  destruct (running s) eqn:Erun; destruct (rs s) eqn:Ers; destruct (ps s) eqn:Eps;
+    cbn [negb andb orb py_replst_eqb]; try reflexivity;
   (assert (Hr : rep s <> None) by (apply Hwf; discriminate));
-  (destruct (ps s) eqn:Eps; try reflexivity; cbn [py_replst_eqb negb andb];
-   unf_py; rewrite opt_end_eq;
+  (unf_py; rewrite ?opt_end_eq;
    (destruct (rep s) as [rp|] eqn:Er; [|contradiction]);
    rewrite Z.gtb_ltb, Z.leb_antisym; destruct (end_time s <? clock s); cbn [negb]; try reflexivity;
    rewrite gen_step_impl_eq by (ssimpl; congruence); ssimpl;
@@ -308,13 +308,12 @@ Theorem gen_start_impl_eq w s t i : (rs s <> RNotInit -> worker s <> WNone) ->
 Proof.
   intros Hw. unfold gen_Simulator__start_impl, start_checks, start_prepared.
   rewrite gen_is_starting_or_running_eq, gen_is_initialized_eq.
-  destruct (running s); [reflexivity|]. cbn [negb andb].
-  unf_py. rewrite opt_end_eq.
-  destruct (rep s) as [rp|] eqn:Er; [|reflexivity]. cbn [negb andb].
-  destruct (rs s) eqn:Ers; try reflexivity;
+  unf_py. rewrite ?opt_end_eq.
+  (* the refusals, in whatever order the source has them *)
+  destruct (running s) eqn:Erun; destruct (rep s) as [rp|] eqn:Er; destruct (rs s) eqn:Ers; destruct (ps s) eqn:Eps;
+    cbn [negb andb orb py_replst_eqb]; try reflexivity;
   (assert (Hk : worker s <> WNone) by (apply Hw; discriminate));
-  (destruct (ps s) eqn:Eps; try reflexivity; cbn [py_replst_eqb negb andb orb];
-   rewrite Z.gtb_ltb, Z.leb_antisym; destruct (end_time s <? clock s); cbn [negb]; try reflexivity;
+  (rewrite Z.gtb_ltb, Z.leb_antisym; destruct (end_time s <? clock s); cbn [negb]; try reflexivity;
    (destruct t as [bz|]; [|reflexivity]);
    rewrite Z.geb_leb, Z.ltb_antisym; destruct (clock s <=? bz); cbn [negb]; try reflexivity;
    rewrite Z.gtb_ltb; destruct (end_time s <? bz); ssimpl; rewrite ?Eps; cbn [py_replst_eqb]; ssimpl;
